@@ -39,6 +39,21 @@ pub fn run(tier: &str, seed: u64, dir: &str) {
             let op = h.done();
             sink.case(&op, &eval(&op), "forced-draws", true);
         }
+        // every TXPower index commanded by LinkADRReq, then uplinks: the power handed to the radio
+        // never exceeds the commanded level
+        for idx in 0..16u8 {
+            for (mp, gain) in [(30u8, 0i8), (20, 2)] {
+                let mut h = Hist::new("C09", region, mp, gain, 3000 + idx as u64, &[], None);
+                h.abp().send(1, false, &[1]);
+                let cmd = if is_fixed(region) { link_adr_req(15, idx, 0x00ff, 6, 1) } else { link_adr_req(15, idx, 0x0007, 0, 1) };
+                h.rx_auth("rx1", 0, 1, false, &cmd, None, &[]).snap();
+                for _ in 0..2 {
+                    h.send(1, false, &[2]).timeout().snap();
+                }
+                let op = h.done();
+                sink.case(&op, &eval(&op), "txpower-sweep", true);
+            }
+        }
         // a plan whose only enabled channel is slot k, for every k (dynamic plans), and a plan whose
         // only enabled channel is c for a spread of c (fixed plans): the selection must find it
         if !is_fixed(region) {
